@@ -280,7 +280,16 @@ fn check(run: &mut Run, tally: &mut Tally, kind: &Kind, sp: &Spec, scratch: &ref
             specials.push(unk.clone());
         }
     }
-    assert!(in_domain(kind, &specials), "configuration outside the stated domain: {kind:?} {sp:?}");
+    // special tokens spelled like a merge of the table: which id such a spelling maps to is not stated,
+    // so the spelling-dependent clauses (distinct entries, token_to_id) are not required for them; the
+    // id-indexed clauses (get_vocab has vocab_size entries, id_to_token equals get_vocab, the layout,
+    // the special ids) are
+    let clash: HashSet<String> = match kind {
+        Kind::Bpe { table, .. } => specials.iter().filter(|s| table.iter().any(|e| e == s.as_bytes())).cloned().collect(),
+        _ => HashSet::new(),
+    };
+    let unambiguous: Vec<String> = specials.iter().filter(|s| !clash.contains(*s)).cloned().collect();
+    assert!(in_domain(kind, &unambiguous), "configuration outside the stated domain: {kind:?} {sp:?}");
     tally.tokenizers += 1;
     run.calls += 1;
     let sub = match build(kind, sp, scratch, merge_file) {
@@ -312,7 +321,7 @@ fn check(run: &mut Run, tally: &mut Tally, kind: &Kind, sp: &Spec, scratch: &ref
     // -- the layout the statement describes ------------------------------------------------------
     let mut seen: HashMap<&[u8], usize> = HashMap::new();
     for (id, t) in vocab.iter().enumerate() {
-        if let Some(first) = seen.insert(t.as_slice(), id) {
+        if let Some(first) = seen.insert(t.as_slice(), id).filter(|_| !std::str::from_utf8(t).map(|x| clash.contains(x)).unwrap_or(false)) {
             run.violation("vocab-entries-distinct", "", case(Some(id as u32)), format!("ids {first} and {id} both have token {:?}", String::from_utf8_lossy(t)));
         }
     }
@@ -320,8 +329,10 @@ fn check(run: &mut Run, tally: &mut Tally, kind: &Kind, sp: &Spec, scratch: &ref
     let mut sid: HashMap<&str, u32> = HashMap::new();
     for s in &specials {
         let at: Vec<usize> = (0..vocab.len()).filter(|i| vocab[*i] == s.as_bytes()).collect();
-        if at.len() == 1 {
-            sid.insert(s.as_str(), at[0] as u32);
+        if at.len() == 1 || (clash.contains(s) && at.len() == 2) {
+            // (a clashing spelling is listed once more when its merge is kept; the special tokens
+            // come after the merges)
+            sid.insert(s.as_str(), *at.last().unwrap() as u32);
         } else {
             run.violation("special-token-has-one-id", "", case(None), format!("special token {s:?} is listed at ids {at:?}"));
         }
@@ -488,7 +499,7 @@ fn check(run: &mut Run, tally: &mut Tally, kind: &Kind, sp: &Spec, scratch: &ref
         }
         let Some(e) = entry else { continue };
         let text = std::str::from_utf8(e).ok();
-        if let Some(s) = text {
+        if let Some(s) = text.filter(|s| !clash.contains(*s)) {
             run.calls += 1;
             match catch(|| tok.token_to_id(s)) {
                 Err(p) => viol(run, tally, "no-panic", "", || case(Some(id)), || format!("token_to_id panicked: {p}")),
@@ -589,12 +600,13 @@ fn main() {
                "grid": "tables x max_vocab_size x special configs (use_graphemes false)"}),
     );
     run.bounds.insert("ids".into(), json!(format!("every id in [0, vocab_size + {MARGIN})")));
+    run.bounds.insert("clash_phase".into(), json!("hand-made tables x each valid UTF-8 entry as an extra special token (first or last in the list, also the last suffix token) x max_vocab_size None, 256..=256+entries+tokens+2; the spelling-dependent clauses are not required for the clashing spelling"));
     run.bounds.insert("units".into(), json!(units));
     run.extra.insert(
         "rule".into(),
         json!("every tokenizer of the grid (byte and char configs x special-token configs; every well-formed merge table over the base bytes up to the entry bound, shortlex, plus hand-made tables x every max_vocab_size x special configs) x every id in [0, vocab_size + 8); one evaluation per (tokenizer, id); an id is non-trivial unless it is a regular single-byte / single-ASCII-character id (i.e. it is a merge, multi-byte, special, padding or out-of-range id)"),
     );
-    run.assumptions.push("special-token spellings have at least two code points and differ from every byte, character and merge token (predicate asserted for every configuration)".into());
+    run.assumptions.push("special-token spellings differ from every byte and character token (predicate asserted for every configuration); a special token spelled like a merge is only judged on the id-indexed clauses".into());
     run.assumptions.push("merge files are written by the harness in the format SerializeMsgPack::save produces (trusted)".into());
     let mut tally = Tally::default();
     for unit in 0..units {
@@ -623,6 +635,39 @@ fn main() {
             }
             let _ = std::fs::remove_file(&file);
         }
+    }
+    // special tokens spelled like a merge of the table (each valid UTF-8 entry of the hand-made tables
+    // in turn, as an extra token of the default list with prefix / suffix), every max_vocab_size
+    {
+        let hand = hand_made_tables();
+        let mut n_clash = 0u64;
+        for (ti, table) in hand.iter().enumerate() {
+            if !run.unit(units + ti as u64) {
+                continue;
+            }
+            let file = scratch.path(&format!("clash_table_{ti}.bin"));
+            refs::write_merge_file(&file, table);
+            for e in table {
+                let Ok(tokstr) = std::str::from_utf8(e) else { continue };
+                for extra_first in [false, true] {
+                    let mut tokens = vec!["<unk>", "<bos>", "<eos>", "<pad>"];
+                    if extra_first {
+                        tokens.insert(0, tokstr);
+                    } else {
+                        tokens.push(tokstr);
+                    }
+                    let sp = spec(&tokens, "<pad>", &["<bos>"], &["<eos>", tokstr]);
+                    let top = 256 + table.len() + sp.tokens.len() + 2;
+                    for max_vocab_size in std::iter::once(None).chain((256..=top).map(Some)) {
+                        n_clash += 1;
+                        check(&mut run, &mut tally, &Kind::Bpe { table: table.clone(), max_vocab_size }, &sp, &scratch, Some(&file));
+                    }
+                }
+                run.tick();
+            }
+            let _ = std::fs::remove_file(&file);
+        }
+        run.count_n("bpe-tokenizers-with-a-special-token-spelled-like-a-merge", n_clash);
     }
     run.count_n("tokenizers-built", tally.tokenizers);
     run.count_n("bpe-keeps-all-merges", tally.bpe_all);
